@@ -70,6 +70,15 @@ Read ==
   /\ last' = [kind |-> "read", prevFlush |-> lastFlush, at |-> now, op |-> "read", n |-> 0]
   /\ UNCHANGED now
 
+\* an operation that raises (replace-last on an empty bucket, update / delete of a bucket that does not exist):
+\* it issues no write; whether it flushes what is pending is free, but it must not leave anything that
+\* makes later completed operations less durable
+FailedOp ==
+  /\ UNCHANGED <<issued, now>>
+  /\ \/ Commit
+     \/ (UNCHANGED counter /\ NoCommit)
+  /\ last' = [kind |-> "failed", prevFlush |-> lastFlush, at |-> now, op |-> "fail", n |-> 0]
+
 Tick(d) == /\ now' = now + d
            /\ last' = [kind |-> "tick", prevFlush |-> lastFlush, at |-> now, op |-> "tick", n |-> d]
            /\ UNCHANGED <<issued, durable, counter, lastCommit, lastFlush>>
@@ -87,6 +96,7 @@ Next == \/ \E n \in BulkSizes : EventWrite(n, "insert")
         \/ EventWrite(1, "insert") \/ EventWrite(1, "replace") \/ EventWrite(1, "delete")
         \/ \E n \in {1, 2} : BucketOp(n)
         \/ Read
+        \/ FailedOp
         \/ \E d \in TickSizes : Tick(d)
         \/ Crash
 Spec == Init /\ [][Next]_vars
